@@ -75,9 +75,11 @@
     (c) lheading / reference scans: `lazyScan_stop` covers them; the lheading rule DECLINES when its scan
         stops by the sweep (level 0) and the paragraph rule repeats the scan; the reference rule may
         accept fewer lines than it scanned.  Missing: `lazyScan test true … = (l, 0, s) → lazyScan test
-        false … = (l, 0, s)` (same stop for the paragraph rule), and for reference: the case
-        `start_line + lines + 1 = l` is `step_after_accept` + `honoured_of_sweep` verbatim (the state
-        differs in the reference map only — `upd` covers it).
+        false … = (l, 0, s)` (same stop for the paragraph rule), and for reference: `reference_ok` — an
+        accepting `referenceRule … s false` returns `upd { s with line := s.line + lines + 1 } s.children
+        s.tight m` with `lazyScan … = (l, lvl, s)` (take `referenceRule` apart as `paragraph_ok` does);
+        then the case `start_line + lines + 1 = l` is `step_after_accept` + `honoured_of_sweep` verbatim
+        (the state differs in the reference map only — `upd` covers it).
     (d) `Reach` does not descend into list items (the `listLoop` iteration relation); the theorems are
         stated for every state, so they hold in those frames — only the listing stops there.
 -/
@@ -241,49 +243,6 @@ theorem paragraph_end_is_real_start (hE : E.OK) {f : Nat} (he : Bool) {s sE : BS
   obtain ⟨t1, hyes⟩ := hstop.yes
   exact honoured_of_sweep hE hyes hstop.lt hstop.nonblank hR.lvl hstop.ind _ _ _
 
-
-/-- what the reference rule does when it accepts, under a quiet sweep: the state is the old one at
-    `start_line + lines + 1`, with another reference map -/
-theorem reference_ok {cfg : Cfg} {test : Test} (ht : TestQuiet test) {fuel : Nat} {s s' : BState}
-    (h : referenceRule cfg test fuel s false = .ok (true, s')) :
-    ∃ l lvl lines m, lazyScan test false fuel s s.line = .ok (l, lvl, s) ∧
-      s' = upd { s with line := s.line + lines + 1 } s.children s.tight m := by
-  unfold referenceRule at h
-  crack h
-  have hs : lazyScan test false fuel s s.line = .ok _ := ‹_›
-  obtain ⟨h1, _, _⟩ := lazyScan_stop ht false _ _ _ _ _ _ hs
-  subst_vars
-  refine ⟨_, _, _, _, ?_, ?_⟩
-  · rw [hs, ← h1]
-  · rw [h1]; cases s; rfl
-
-/-- **the reference rule**: a definition that ends exactly where its scan stopped because the sweep said
-    yes — the next iteration stands there and the yes is honoured (the state differs from the sweep's in
-    the reference map only).  (A definition that uses fewer lines than were scanned leaves the loop at an
-    earlier line; the remaining lines are scanned again by the next paragraph-like rule.) -/
-theorem reference_end_is_real_start (hE : E.OK) {f : Nat} (he : Bool) {s sE : BState} {pre post : List ι} {i : ι}
-    {s1 : BState}
-    (hR : RunsChain E.cfg.maxNesting s sE) (hc : E.chain = pre ++ i :: post)
-    (hd : Declined (E.rule f) pre sE false) (hi : E.base i = some .reference)
-    (hp : E.rule f i sE false = .ok (true, s1)) :
-    ∃ l lvl lines m, lazyScan (E.test f) false (f + 1) sE sE.line = .ok (l, lvl, sE) ∧
-      s1 = upd { sE with line := sE.line + lines + 1 } sE.children sE.tight m ∧
-      (SweepStop (E.test f) sE l → sE.line + lines + 1 = l →
-        tokStepG E.cfg.maxNesting E.chain (E.rule f) he s =
-          .ok (.next (he || sE.isEmpty (l - 1)) (upd { sE with line := l } sE.children (!he) m)) ∧
-        Honoured E f { sE with line := l } (upd { sE with line := l } sE.children (!he) m)) := by
-  have hq := hE.test_quiet f
-  have hp0 := hp
-  rw [E.rule_base f i _ hi] at hp
-  obtain ⟨l, lvl, lines, m, hs, rfl⟩ := reference_ok hq hp
-  refine ⟨l, lvl, lines, m, hs, rfl, ?_⟩
-  intro hstop hl
-  subst hl
-  have hch := chain_accepts_at (post := post) hd hp0
-  rw [← hc] at hch
-  refine ⟨step_after_accept hR hch (by omega) hstop.lt hstop.nonblank, ?_⟩
-  obtain ⟨t1, hyes⟩ := hstop.yes
-  exact honoured_of_sweep hE hyes hstop.lt hstop.nonblank hR.lvl hstop.ind _ _ _
 
 /-- the first member that says yes is unique -/
 theorem first_yes_unique {run : ι → BState → Bool → Res} {s : BState} :
